@@ -169,7 +169,8 @@ def r2_order(ctx):
             if isinstance(t, ast.Compare) and len(t.ops) == 1 and isinstance(t.ops[0], ast.In) and isinstance(t.comparators[0], ast.Name):
                 guards.append((n, t.comparators[0].id))
     planned_dicts = {d for _, d in guards}
-    ctx.floor('C15.R2', '"already planned" guard in restore', len(guards))
+    if not guards:
+        ctx.fail('C15.R2', f'{func_label(fn)}|first-occurrence-wins', loc(fn, fn.node), 'restore has no `if <path> in <planned>: continue` membership guard: whether an older snapshot overrides a newer version no longer depends only on the path having been planned (e.g. a truthiness test treats an empty newest version as unplanned)')
     n_pl = 0
     for st, d, key in plans:
         if d not in planned_dicts:
@@ -190,7 +191,8 @@ def r2_order(ctx):
             f'restore: the plan entry `{d}[...]` is created only when the path has not been planned by a newer snapshot',
             f'restore: `{src(st, 60)}` can overwrite the plan made from a newer snapshot (the "already planned" test does not dominate it)',
         )
-    ctx.floor('C15.R2', 'plan-creating statements', n_pl)
+    if guards:
+        ctx.floor('C15.R2', 'plan-creating statements', n_pl)
     # the loop iterates the sorted list itself
     sorted_names = {c.func.value.id for c in sorts if isinstance(c.func, ast.Attribute) and isinstance(c.func.value, ast.Name)}
     for n in walk_local(fn.node):
